@@ -407,3 +407,10 @@ func (s *Store) notePrepare(text string) {
 	s.gormPrepareTexts = append(s.gormPrepareTexts, text)
 	s.noteMu.Unlock()
 }
+
+// OpenStmtsNow reads the number of open prepared statements (natively under the driver lock).
+func (s *Store) OpenStmtsNow() int {
+	lockStore()
+	defer unlockStore()
+	return s.OpenStmts
+}
